@@ -88,8 +88,13 @@ func TimeStampToCdr(t *time.Time) cdrType.TimeStamp {
 	} else {
 		ts[6] = byte('-')
 	}
+	if tz < 0 {
+		// the sign is carried by ts[6]
+		tz = -tz
+	}
+	tzMinute := tz % 3600 / 60
 	ts[7] = (byte(tz/3600/10) << 4) | (byte(tz / 3600 % 10))
-	ts[8] = (byte(tz%3600/10) << 4) | (byte(tz % 3600 % 10))
+	ts[8] = (byte(tzMinute/10) << 4) | (byte(tzMinute % 10))
 	cdrTimeStamp := cdrType.TimeStamp{
 		Value: ts,
 	}
